@@ -26,7 +26,7 @@ ASSUMPTIONS = ["numpy.loadtxt drops size-1 axes: loader results are compared aft
 
 def bound(tier):
     q = tier == "quick"
-    return dict(full_spaces="n = 1..%d" % (10 if q else 13), structured_rows="n up to 20: {0,1,2^j,2^j+-1,2^n-1}",
+    return dict(full_spaces="n = 1..%d" % (10 if q else 15), structured_rows="n up to 20: {0,1,2^j,2^j+-1,2^n-1}",
                 size_limit="max_size+1 refused; max_size accepted and spot-checked",
                 loaders="N in {1,2,3,5} x n in {1,2,3} x bit patterns x 9-digit targets x basis alphabets",
                 refbasis="every {X,Y,Z} assignment to N x n arrays, (N,n) in {(1,1),(1,2),(2,1),(2,2),(3,2),(2,3)}" + ("" if q else ",(3,3) structured"))
@@ -34,10 +34,10 @@ def bound(tier):
 
 def plan(tier, seed):
     items = []
-    nmax = 10 if tier == "quick" else 13
+    nmax = 10 if tier == "quick" else 15
     for n in range(1, nmax + 1):
         items.append(dict(layer="space", n=n))
-    items.append(dict(layer="structured", lo=11 if tier == "quick" else 14, hi=20))
+    items.append(dict(layer="structured", lo=11 if tier == "quick" else 16, hi=20))
     items.append(dict(layer="sequence"))
     items.append(dict(layer="limit", accept=True))
     for n in (1, 2, 3, 4) + (() if tier == "quick" else (5,)):
